@@ -349,7 +349,7 @@ func (w *world) runOp(c kase, i int, o op) {
 					rep.Hit("undrop:restored-intact")
 				}
 				if name != o.Name && contains(beforeHeld, o.Name) {
-					rep.Known("undrop-wrong-case-copy", fmt.Sprintf("dolt_undrop('%s') restored the dropped database '%s' although a dropped database named exactly '%s' was available (held: %v)", o.Name, name, o.Name, beforeHeld), c)
+					rep.Violate("undrop-wrong-case-copy", fmt.Sprintf("dolt_undrop('%s') restored the dropped database '%s' although a dropped database named exactly '%s' was available (held: %v)", o.Name, name, o.Name, beforeHeld), c)
 					rep.Hit("undrop:restored-other-case-copy")
 				}
 			}
@@ -570,13 +570,15 @@ func main() {
 		}
 	}
 	fixed := []kase{
-		// the witness of C47.undrop_exact_name_false
+		// the former counterexample of undrop_exact_name (also corpus/C47/wrong-case-copy.json)
 		{[]op{{"create", "dbx"}, {"drop", "dbx"}, {"create", "DBX"}, {"drop", "DBX"}, {"undrop", "dbx"}}},
 		// re-drop of the same name: the first copy is renamed, both can be restored
 		{[]op{{"create", "dbx"}, {"drop", "dbx"}, {"create", "dbx"}, {"drop", "dbx"}, {"undrop", "dbx"}, {"undrop", "@0"}}},
 		{[]op{{"create", "dbx"}, {"drop", "DBX"}, {"undrop", "Dbx"}, {"drop", "dbx"}, {"purge", ""}, {"undrop", "dbx"}}},
 		{[]op{{"create", "dbx"}, {"drop", "dbx"}, {"create", "Dbx"}, {"undrop", "dbx"}, {"drop", "Dbx"}, {"undrop", "dbx"}}},
 		{[]op{{"undrop", "dbx"}, {"purge", ""}, {"drop", "dbx"}, {"create", "dbx"}, {"create", "DBX"}}},
+		// fold-only request with two candidates: the first in byte order (DBX) comes back, then the exact one
+		{[]op{{"create", "Dbx"}, {"drop", "Dbx"}, {"create", "DBX"}, {"drop", "DBX"}, {"undrop", "dbx"}, {"undrop", "Dbx"}}},
 	}
 	for _, c := range fixed {
 		runCase(e, m, w, c)
